@@ -219,7 +219,7 @@ impl Prop for C10 {
         "C10"
     }
     fn rule(&self) -> String {
-        "graphs of all 8 kinds, n in 0..=12 (some 13..=30, one case in 450 at a size around a power of two up to 255, and one case in 9000 with a procedurally generated graph of 300..40000 nodes checked against union-find / Kosaraju oracles in pools of 16 and 2 threads), sparse random edges plus shapes stressed towards many small components, long cycles, nested strongly connected components (cycle of cycles), DAGs, isolated nodes, self-loops and parallel edges; shuffled names. Oracle: boolean transitive closure of the edge list (Floyd-Warshall); connected/weak components = classes of mutual reachability ignoring direction, strong = mutual reachability; results compared as sets of sets (disjoint, non-empty, covering). node_connected_component and breadth_first_search from every node, bfs_equal_size_partitions for k = 1 + k%(n+2), WrongMethod on the other kind. Every call is repeated 3 times in-process (hash iteration order differs per call). Exhaustive block: all directed graphs on <= 3 nodes and undirected on <= 4. Non-trivial = >= 2 components with one of size >= 3 (for directed graphs additionally a node reachable from a non-trivial SCC but outside it); distinct = distinct serialised case. Name-type independence: for every graph of <= 12 nodes and one in eight up to 64 (34 for path-returning calls) the same calls are repeated with a user-defined node-name type (lossy Display, heavily colliding Hash, Ord unrelated to insertion order) and must give the same order-independent results as with String names (floats within 1e-9).".into()
+        "graphs of all 8 kinds, n in 0..=12 (some 13..=30, one case in 450 at a size around a power of two up to 255, and one case in 9000 with a procedurally generated graph of 300..40000 nodes checked against union-find / Kosaraju oracles in pools of 16 and 2 threads), sparse random edges plus shapes stressed towards many small components, long cycles, nested strongly connected components (cycle of cycles), DAGs, isolated nodes, self-loops and parallel edges; shuffled names. Oracle: boolean transitive closure of the edge list (Floyd-Warshall); connected/weak components = classes of mutual reachability ignoring direction, strong = mutual reachability; results compared as sets of sets (disjoint, non-empty, covering). node_connected_component and breadth_first_search from every node, bfs_equal_size_partitions for k = 1 + k%(n+2), WrongMethod on the other kind. Every call is repeated 3 times in-process (hash iteration order differs per call). Exhaustive block: all directed graphs on <= 3 nodes and undirected on <= 4. Non-trivial = >= 2 components with one of size >= 3 (for directed graphs additionally a node reachable from a non-trivial SCC but outside it); distinct = distinct serialised case. Name-type independence: for every graph of <= 12 nodes and one in eight up to 64 (34 for path-returning calls) the same calls are repeated with a user-defined node-name type (lossy Display, heavily colliding Hash, Ord unrelated to insertion order) and must give the same order-independent results as with String names (floats within 1e-9). Round 9: two fixed graphs (undirected 70 001 and directed 81 919 leaves around one hub, a pendant node behind every 89th leaf and the last five): one breadth-first level of more than 2^16 nodes; breadth_first_search from the hub lists every node once, connected / weakly connected components form one set, the count is 1 and node_connected_component of the last pendant node is the whole graph.".into()
     }
     fn assumptions(&self) -> Vec<String> {
         vec!["'bounded size' for bfs_equal_size_partitions is read as floor(n/k)+1 per part, the bound documented by the function".into()]
